@@ -2,7 +2,7 @@
 from mir2smt.ob import *
 from mir2smt import terms as T
 
-CRATES = ["ckb-occupied-capacity-core", "ckb-types", "ckb-chain-spec"]
+CRATES = ["ckb-occupied-capacity-core", "ckb-constant", "ckb-types", "ckb-chain-spec"]
 U64 = (1 << 64) - 1
 VAL = []   # (session, ctx, concrete input assignments) for translator validation
 # literals from util/types/src/core/tests and boundary values of the bit fields
@@ -223,7 +223,102 @@ def m5_secondary(S):
     S.witness(ctx, ob, "reach_remainder_block", pre, T.and_(T.lt(k.t, rem), T.gt(k.t, 0)))
 
 
-OBLIGATIONS = [m1_fields, m2_order, m3_min_epoch, m4_primary_rewards, m5_secondary]
+def consensus(ctx, name="cons"):
+    from mir2smt.exec import OpaqueV
+    return OpaqueV(name, "Consensus")
+
+
+def getter(S, ctx, cons, name):
+    """value of a Consensus getter (runs the real getter so that the field index comes from the MIR)"""
+    ps = S.run(ctx, "Consensus::" + name, [ctx.ref_to(cons)])
+    return merged(ps, as_int)
+
+
+def m6_halving(S):
+    """primary issuance halves on schedule"""
+    ob = "C07.m6"
+    ctx = S.ctx()
+    cons = consensus(ctx)
+    e = ctx.int("e", "u64")
+    interval = getter(S, ctx, cons, "primary_epoch_reward_halving_interval")
+    initial = getter(S, ctx, cons, "initial_primary_epoch_reward")
+    ps = S.run(ctx, "Consensus::primary_epoch_reward", [ctx.ref_to(cons), e])
+    r = merged(ps, as_int)
+    S.native(ctx, "consensus_primary_epoch_reward", [initial, interval, e.t], [r], cond_of(panics(ps)))
+    VAL.append((S, ctx, [{"cons.6.0": ini, "cons.30": iv, "e": ee} for ini in (0, 1, 191780821917808, U64) for iv in (0, 1, 8760, U64)
+                         for ee in (0, 1, 8759, 8760, 8761, 17520, 63 * 8760, 64 * 8760, U64)]))
+    halv = T.ediv(e.t, interval)
+    S.prove(ctx, ob, "panics_iff_zero_interval_or_64_halvings", [], T.iff(cond_of(panics(ps)), T.or_(T.eq(interval, 0), T.ge(halv, 64))))
+    # reward(e) = floor(initial / 2^halvings): expressed without exponentiation via the halving recurrence
+    # (a) epoch in the first period gets the initial reward
+    S.prove(ctx, ob, "first_period_is_initial", [T.gt(interval, 0), T.lt(e.t, interval)], T.eq(r, initial))
+    # (b) reward(e) = floor(initial / 2^h), h = e div interval: r*2^h <= initial < (r+1)*2^h, with 2^h selected from constants
+    P = 1 << 63
+    for k in range(62, -1, -1):
+        P = T.ite(T.eq(halv, k), 1 << k, P)
+    pre = [T.gt(interval, 0), T.lt(halv, 64)]
+    S.prove(ctx, ob, "reward_is_initial_over_two_to_halvings", pre,
+            T.and_(T.not_(cond_of(panics(ps))), T.le(T.mul(r, P), initial), T.lt(initial, T.mul(T.add(r, 1), P))), timeout_s=120)
+    S.witness(ctx, ob, "reach_third_period", pre, T.and_(T.eq(halv, 2), T.gt(r, 0)))
+    # primary_epoch_reward_of_next_epoch: switches exactly at multiples of the interval, otherwise carries the epoch's own reward
+    ctx = S.ctx()
+    cons = consensus(ctx)
+    ep, f = epoch_ext(ctx)
+    interval = getter(S, ctx, cons, "primary_epoch_reward_halving_interval")
+    initial = getter(S, ctx, cons, "initial_primary_epoch_reward")
+    ps = S.run(ctx, "Consensus::primary_epoch_reward_of_next_epoch", [ctx.ref_to(cons), ctx.ref_to(ep)])
+    r = merged(ps, as_int)
+    nxt = T.add(f["number"], 1)
+    at_boundary = T.ite(T.eq(interval, 0), T.eq(nxt, 0), T.eq(T.emod(nxt, interval), 0))
+    own = T.add(T.mul(f["base"], f["length"]), f["rem"])
+    pre = [T.le(nxt, U64), T.le(own, U64), T.gt(interval, 0), T.lt(T.ediv(nxt, interval), 64)]
+    S.prove(ctx, ob, "next_epoch_no_panic", pre, T.not_(cond_of(panics(ps))))
+    S.prove(ctx, ob, "next_epoch_carries_or_halves", pre,
+            T.eq(r, T.ite(at_boundary, merged(S.run(ctx, "Consensus::primary_epoch_reward", [ctx.ref_to(cons), IntV(nxt, "u64")], allow=("return", "panic")), as_int), own)), timeout_s=120)
+    S.witness(ctx, ob, "reach_boundary", pre, T.and_(at_boundary, T.gt(f["number"], 5)))
+
+
+def m7_bounding_length(S):
+    ob = "C07.m7"
+    ctx = S.ctx()
+    cons = consensus(ctx)
+    length = ctx.int("len", "u64"); last = ctx.int("last", "u64")
+    MAXL = getter(S, ctx, cons, "max_epoch_length")
+    MINL = getter(S, ctx, cons, "min_epoch_length")
+    ps = S.run(ctx, "Consensus::bounding_epoch_length", [ctx.ref_to(cons), length, last])
+    val = merged(ps, lambda v: as_int(v.fields[0]))
+    flag = merged(ps, lambda v: as_bool(v.fields[1]))
+    S.prove(ctx, ob, "panics_iff_double_overflows", [], T.iff(cond_of(panics(ps)), T.gt(T.mul(last, 2) if False else T.mul(last.t, 2), U64)))
+    hi = T.imin(MAXL, T.mul(last.t, 2))
+    lo = T.imax(MINL, T.ediv(last.t, 2))
+    pre = [T.le(T.mul(last.t, 2), U64)]
+    nonempty = T.le(lo, hi)
+    S.prove(ctx, ob, "within_factor_two_and_consensus_limits", pre + [nonempty], T.and_(T.le(lo, val), T.le(val, hi)))
+    S.prove(ctx, ob, "identity_inside_interval", pre + [T.le(lo, length.t), T.le(length.t, hi)], T.and_(T.eq(val, length.t), T.not_(flag)))
+    S.prove(ctx, ob, "flag_iff_clamped", pre, T.iff(flag, T.or_(T.gt(length.t, hi), T.lt(length.t, lo))))
+    S.prove(ctx, ob, "clamps_to_nearest_bound", pre + [nonempty], T.eq(val, T.ite(T.gt(length.t, hi), hi, T.ite(T.lt(length.t, lo), lo, length.t))))
+    S.witness(ctx, ob, "reach_clamp_low", pre + [nonempty], T.and_(flag, T.eq(val, lo), T.gt(lo, 300)))
+
+
+def m8_bounding_hash_rate(S):
+    ob = "C07.m8"
+    ctx = S.ctx()
+    cons = consensus(ctx)
+    cur = ctx.int("cur", "U256"); prev = ctx.int("prev", "U256")
+    ps = S.run(ctx, "Consensus::bounding_hash_rate", [ctx.ref_to(cons), cur, prev])
+    val = merged(ps, as_int)
+    M256 = (1 << 256) - 1
+    S.prove(ctx, ob, "panics_only_when_double_overflows_u256", [], T.implies(cond_of(panics(ps)), T.gt(T.mul(prev.t, 2), M256)))
+    pre = [T.le(T.mul(prev.t, 2), M256)]
+    S.prove(ctx, ob, "no_panic_below_overflow", pre, T.not_(cond_of(panics(ps))))
+    S.prove(ctx, ob, "identity_when_no_previous", [T.eq(prev.t, 0)], T.eq(val, cur.t))
+    S.prove(ctx, ob, "within_factor_two", pre + [T.gt(prev.t, 0)], T.and_(T.le(T.ediv(prev.t, 2), val), T.le(val, T.mul(prev.t, 2))))
+    S.prove(ctx, ob, "clamp_exact", pre + [T.gt(prev.t, 0)],
+            T.eq(val, T.ite(T.lt(cur.t, T.ediv(prev.t, 2)), T.ediv(prev.t, 2), T.ite(T.gt(cur.t, T.mul(prev.t, 2)), T.mul(prev.t, 2), cur.t))))
+    S.witness(ctx, ob, "reach_upper_clamp", pre + [T.gt(prev.t, 0)], T.and_(T.eq(val, T.mul(prev.t, 2)), T.gt(prev.t, 1 << 100)))
+
+
+OBLIGATIONS = [m1_fields, m2_order, m3_min_epoch, m4_primary_rewards, m5_secondary, m6_halving, m7_bounding_length, m8_bounding_hash_rate]
 
 
 def validate(S, native):
